@@ -21,6 +21,7 @@
 #include <string>
 #include <thread>
 #include <type_traits>
+#include <unistd.h>
 #include <vector>
 
 #include "common.hpp"
